@@ -1,11 +1,11 @@
 """Static evaluation of the attribute-name mapping functions used by writer and readers
-(`_map_to_xml_prop`, `_map_to_prop`): an if-chain of constant comparisons with a regex fallback.
-The fallback must be one of the two recognised idioms (snake->camel, camel->snake); anything else
-is an ANALYSIS-ERROR (the checker refuses rather than guesses)."""
-import ast
+(`_map_to_xml_prop`, `_map_to_prop`).  The function is folded over the constant attribute / element name with the
+abstract evaluator (sa/strdom.py): if-chains, table look-ups, regex substitutions with constant patterns (folded
+with the standard library's re on the constant) are all just evaluated; nothing of the repository is executed.
+A function the evaluator cannot fold is an ANALYSIS-ERROR (the checker refuses rather than guesses)."""
 import re
 
-from .core import AnalysisError, norm, walk_no_nested
+from .core import AnalysisError
 
 
 def snake_to_camel(s):
@@ -16,58 +16,26 @@ def camel_to_snake(s):
     return re.sub("(?<!^)(?=[A-Z])", "_", s).lower()
 
 
-def fallback_kind(expr):
-    """'s2c' | 'c2s' | None for the expression used in the else branch"""
-    t = norm(expr)
-    if isinstance(expr, ast.Call) and norm(expr.func) == "re.sub" and len(expr.args) == 3 and isinstance(expr.args[0], ast.Constant):
-        pat = expr.args[0].value
-        if pat == r"_(\w)" and isinstance(expr.args[1], ast.Lambda) and ".group(1).upper()" in norm(expr.args[1]):
-            return "s2c"
-    if isinstance(expr, ast.Call) and isinstance(expr.func, ast.Attribute) and expr.func.attr == "lower" and isinstance(expr.func.value, ast.Call) and norm(expr.func.value.func) == "re.sub":
-        a = expr.func.value.args
-        if len(a) == 3 and isinstance(a[0], ast.Constant) and a[0].value == "(?<!^)(?=[A-Z])" and isinstance(a[1], ast.Constant) and a[1].value == "_":
-            return "c2s"
-    return None
-
-
 class NameMap:
-    def __init__(self, fn, where):
-        self.special = {}
-        self.kind = None
-        self.fn = fn
-        params = [a.arg for a in fn.args.args if a.arg not in ("cls", "self")]
-        if len(params) != 1:
-            raise AnalysisError("%s: expected one parameter" % where)
-        p = params[0]
-        node = None
-        for s in fn.body:
-            if isinstance(s, ast.If):
-                node = s
-        if node is None:
-            raise AnalysisError("%s: if-chain not found" % where)
-        while isinstance(node, ast.If):
-            t = node.test
-            key = None
-            if isinstance(t, ast.Compare) and len(t.ops) == 1 and isinstance(t.ops[0], ast.Eq):
-                l, r = t.left, t.comparators[0]
-                if isinstance(l, ast.Constant) and norm(r) == p:
-                    key = l.value
-                elif isinstance(r, ast.Constant) and norm(l) == p:
-                    key = r.value
-            if key is None or len(node.body) != 1 or not isinstance(node.body[0], ast.Assign) or not isinstance(node.body[0].value, ast.Constant):
-                raise AnalysisError("%s: unrecognised branch %s" % (where, norm(t)))
-            self.special[key] = node.body[0].value.value
-            if len(node.orelse) == 1 and isinstance(node.orelse[0], ast.If):
-                node = node.orelse[0]
-            else:
-                if len(node.orelse) != 1 or not isinstance(node.orelse[0], ast.Assign):
-                    raise AnalysisError("%s: unrecognised fallback" % where)
-                self.kind = fallback_kind(node.orelse[0].value)
-                if self.kind is None:
-                    raise AnalysisError("%s: fallback %s is not a recognised snake/camel idiom" % (where, norm(node.orelse[0].value)))
-                node = None
+    def __init__(self, fn, where, repo=None, cls=None, mod=None):
+        self.fn, self.where, self.repo, self.cls, self.mod = fn, where, repo, cls, mod
+        self.cache = {}
 
     def __call__(self, name):
-        if name in self.special:
-            return self.special[name]
-        return snake_to_camel(name) if self.kind == "s2c" else camel_to_snake(name)
+        if name in self.cache:
+            return self.cache[name]
+        from .strdom import ClassRef, Ev, FuncV, Str, _Raise, decorators
+
+        ev = Ev(self.repo)
+        d = decorators(self.fn)
+        recv = None if "staticmethod" in d else (ClassRef(self.cls) if self.cls is not None else None)
+        try:
+            r = ev.call_fn(FuncV(self.fn, self_val=recv, cls=self.cls, mod=self.mod), [Str.lit(name)], {}, self.fn)
+        except _Raise as x:
+            r = None
+            self.cache[name] = "<raises %s>" % x.what
+            return self.cache[name]
+        if not (isinstance(r, Str) and r.is_lit()):
+            raise AnalysisError("%s(%r) does not fold to a constant name" % (self.where, name))
+        self.cache[name] = r.text()
+        return self.cache[name]
